@@ -136,6 +136,10 @@ class W:
                 k = "pt" if "pt" in (l[0], r[0]) else "num"
                 wl, wr = l[1], r[1]
                 if isinstance(e.op, ast.Sub):
+                    if s.final and len(l) > 2 and len(r) > 2 and wl == 1 and wr == 1:
+                        # float(p) - float(q): the difference of two positions taken after each was rounded to a float
+                        s.eng.sites += 1
+                        s.eng.findings.append((s.q, e.lineno, "difference of two positions after separate float conversion", U(e)[:70]))
                     if wl == "C" or wr == "C": return (k, wl if wr == "C" else wr if wl == "C" else None)
                     return (k, wl - wr) if wl is not None and wr is not None else (k, None)
                 if isinstance(e.op, ast.Add):
@@ -173,7 +177,10 @@ class W:
                 if name == "abs":
                     if args and args[0][0] == "pt": s.check(e, "abs of a position", args[0])
                     return ("num", 0) if args and args[0][0] == "pt" else args[0] if args else UNK
-                if name == "float": return args[0] if args and args[0][0] == "num" else ("num", 0)
+                if name == "float":
+                    if args and args[0][0] == "num":
+                        return args[0][:2] + ("f",) if args[0][1] == 1 else args[0]   # a position coordinate rounded to a float
+                    return ("num", 0)
                 if name in ("tuple", "list", "sorted", "reversed"): return args[0] if args else UNK
                 if name == "enumerate": return ("enum", args[0])
                 if name == "zip": return ("zip", tuple(args))
